@@ -1077,7 +1077,7 @@ Proof.
     + destruct (t_prim t) as [|l rest]; [constructor|].
       inversion Hn as [|? ? [Hl _] _]; subst. exact Hn.
     + constructor; simpl; auto; lia.
-  - intros t1 W1; apply okres_ok; now apply WFs_set_onalt.
+  - intros t1 W1; apply okres_ok; now apply WFs_set_onalt, WFs_set_pen.
 Qed.
 
 End FixedEvents.
